@@ -1,0 +1,11 @@
+//go:build verif
+
+// Contracts for gvc (/verif). Comment-only: this file adds no declarations.
+
+package hash
+
+//@ spec fn hash_string(s string) uint32
+
+//@ func String
+//@   pure
+//@   fn hash_string
